@@ -24,6 +24,7 @@ type c03Case struct {
 	Splits   []int    `json:"splits,omitempty"`
 	Stride   int      `json:"stride,omitempty"`
 	Store    string   `json:"store,omitempty"` // "example": the repeat part against the bundled store
+	Kept     string   `json:"kept,omitempty"`  // "shared": the handler keeps its reply per call content and returns the same message object again; "read": it reads the reply to its end before returning it
 }
 
 // soloReply runs one request alone and returns its reply (nil if none).
@@ -75,6 +76,23 @@ func c03Check(cs c03Case) (clause, detail string) {
 	conn := seq.NewConn(seq.Script{Input: input, Splits: cs.Splits, Stride: cs.Stride})
 	d := srv.NewDouble()
 	catalogueDouble(d)
+	if cs.Kept != "" {
+		inner := d.Result
+		kept := map[string]*redis.Message{}
+		d.Result = func(d *srv.Double, c srv.Call) (*redis.Message, error) {
+			if m := kept[c.Key()]; m != nil && cs.Kept == "shared" {
+				return m, nil
+			}
+			m, err := inner(d, c)
+			if m != nil && err == nil {
+				if cs.Kept == "read" {
+					readThrough(m)
+				}
+				kept[c.Key()] = m
+			}
+			return m, err
+		}
+	}
 	s := srv.NewServer(d)
 	s.SetAuthCommandHandler(d)
 	lastChecked := -1
@@ -131,7 +149,15 @@ func c03Check(cs c03Case) (clause, detail string) {
 		if len(sr.Reply) != 1 {
 			return "solo-reply-count", fmt.Sprintf("request #%d alone got %d replies", i, len(sr.Reply))
 		}
-		if !vals[i].Equal(sr.Reply[0]) {
+		if cs.Kept != "" {
+			// commands the library derives from another handler's reply (HKEYS, HLEN,
+			// SCARD, ...) read that reply through its cursor, so what they answer for a
+			// reply object that was read before is the application's business: only
+			// the reply's type is compared here
+			if vals[i].Kind != sr.Reply[0].Kind {
+				return "reply-order", fmt.Sprintf("reply #%d is %s but request #%d alone is answered %s", i, vals[i], i, sr.Reply[0])
+			}
+		} else if !vals[i].Equal(sr.Reply[0]) {
 			return "reply-order", fmt.Sprintf("reply #%d is %s but request #%d alone is answered %s", i, vals[i], i, sr.Reply[0])
 		}
 		wantCalls = append(wantCalls, sr.Calls...)
@@ -504,6 +530,27 @@ func c03Run(c *fw.Ctx) {
 			if clause, detail := c03CheckExample(cs); clause != "" {
 				name := it.Label[:strings.IndexByte(it.Label, '|')]
 				c.Violation("C03|repeat:"+name+"|example-store|"+clause, detail+" request="+it.Label+" input="+trunc(it.Bytes, 80), cs)
+			}
+		}
+	}
+	// the same request three times against a handler that keeps the reply it built
+	// for a call and returns that object again, or that has read its reply before
+	// returning it: every request still gets its complete reply
+	for _, it := range cat {
+		if !c.Mine() || it.Kind == "quit" {
+			continue
+		}
+		for _, kept := range []string{"shared", "read"} {
+			ping := grammar.Encode([]string{"PING"})
+			cs := c03Case{Requests: [][]byte{it.Bytes, it.Bytes, ping, it.Bytes}, Labels: []string{it.Label, it.Label, "PING|probe", it.Label}, Kept: kept}
+			c.Eval()
+			c.Nontrivial()
+			if clause, detail := c03Check(cs); clause != "" {
+				if cl, _ := c03Check(c03Case{Requests: cs.Requests[:1], Labels: cs.Labels[:1]}); cl != "" {
+					continue // reported by the singles pass
+				}
+				name := it.Label[:strings.IndexByte(it.Label, '|')]
+				c.Violation("C03|kept-reply:"+kept+":"+name+"|"+clause, detail+" request="+it.Label+" input="+trunc(it.Bytes, 80), cs)
 			}
 		}
 	}
